@@ -251,7 +251,13 @@ func recvAgainstRef(r *Run, fs framingSpec, ch channel.Channel, ref refDecoder, 
 					r.Fail("fabricated-or-altered-record", "%s: Recv %d returned %s with error %v, the stream's next record is %s", fs.Name, i, preview(data), err, preview(exp.Rec))
 					return
 				}
-				tail = true
+				// Up to here the stream is well formed by the documented format (the
+				// reference would have abstained otherwise): field names in any case,
+				// unknown fields, any field order, an absent Content-Type for
+				// Header/LSP are all to be accepted, so refusing the record breaks
+				// the documented rules.
+				r.Fail("valid-record-refused", "%s: Recv %d failed with %v although the stream holds the well-formed record %s at this point", fs.Name, i, err, preview(exp.Rec))
+				return
 			}
 		case xRecordErr:
 			if err == nil {
